@@ -218,7 +218,11 @@ def dec_text_st(scale):
     else:
         k = -scale.as_tuple().exponent if isinstance(scale, decimal.Decimal) else int(scale)
         frac = st.text("0123456789", min_size=k, max_size=k)
-    return st.builds(mk, st.booleans(), st.one_of(st.integers(0, 10**12), st.sampled_from([0, 1, 100])), frac)
+    ints = st.one_of(st.integers(0, 10**12), st.sampled_from([0, 1, 100]))
+    if scale is None:
+        # now and then more significant digits than any fixed working precision: amounts are exact
+        ints = st.integers(0, 15).flatmap(lambda i: st.integers(10**29, 10**36) if i == 0 else st.one_of(st.integers(0, 10**12), st.sampled_from([0, 1, 100])))
+    return st.builds(mk, st.booleans(), ints, frac)
 
 
 DT = st.builds(
